@@ -1,6 +1,6 @@
 """Per-property rule sets (DESIGN section 5)."""
 from .model import model
-from .rules import sig, fwd, misc, kern, kern2d, iterspace
+from .rules import sig, fwd, misc, kern, kern2d, iterspace, cshape
 
 ALL_PY = ['dtaidistance.dtw', 'dtaidistance.dtw_ndim', 'dtaidistance.ed', 'dtaidistance.dtw_barycenter',
           'dtaidistance.subsequence.subsequencealignment', 'dtaidistance.subsequence.subsequencesearch',
@@ -10,11 +10,16 @@ ALL_PY = ['dtaidistance.dtw', 'dtaidistance.dtw_ndim', 'dtaidistance.ed', 'dtaid
 
 def _tmp(ctx):
     m = model(ctx.repo)
-    iterspace.rule_iter_python(ctx, m)
-    iterspace.rule_iter_c_serial(ctx, m)
-    iterspace.rule_omp(ctx, m)
-    iterspace.rule_iter_pyx(ctx, m)
-    iterspace.rule_mp_order(ctx, m)
+    cshape.rule_shadow(ctx, m)
+    cshape.rule_scan_init(ctx, m)
+    cshape.rule_variant_callees(ctx, m)
+    cshape.rule_c_no_input_stores(ctx, m)
+    cshape.rule_c_reentrant(ctx, m)
+    cshape.rule_alloc_c(ctx, m)
+    cshape.rule_alloc_pyx(ctx, m)
+    cshape.rule_ndim_stride(ctx, m, ['euclidean_distance_ndim', 'euclidean_distance_ndim_euclidean', 'dtw_distance_ndim', 'dtw_distance_ndim_euclidean',
+                                     'dtw_warping_paths_ndim', 'dtw_warping_paths_ndim_euclidean', 'dtw_warping_paths_affinity_ndim'])
+    cshape.rule_dba_c(ctx, m)
 
 
 PROPS = {'T00': (_tmp, 'scratch')}
